@@ -4,6 +4,8 @@ values), is_command()/is_response() on every MessageType member, COMMAND_MESSAGE
 MessagePayload subclass with MESSAGE_TYPE/MESSAGE_VERSION, and message_type_to_class."""
 import enum, importlib, inspect, json, os, pkgutil, sys
 
+sys.path.insert(0, os.path.dirname(os.path.abspath(__file__)))
+
 OUT_FD = os.dup(1)      # some application modules re-point sys.stdout on import
 
 import fusion_engine_client
@@ -20,56 +22,78 @@ for m in pkgutil.walk_packages(fusion_engine_client.__path__, 'fusion_engine_cli
             raise
         notes.append('module %s not importable (%s): skipped' % (m.name, type(e).__name__))
 
-enums = {}
-for mod in mods:
-    if not mod.__name__.startswith('fusion_engine_client.messages'):
-        continue        # protocol enumerations live in the messages package (others: TimeAlignmentMode, WarnOnError)
+def snapshot():
+    """every table C03 is about, as plain values (copied now, so later mutation by library code shows)"""
+    notes_local = []
+    enums = {}
+    for mod in mods:
+        if not mod.__name__.startswith('fusion_engine_client.messages'):
+            continue        # protocol enumerations live in the messages package (others: TimeAlignmentMode, WarnOnError)
 
-    def visit(ns, depth):
-        for n, v in list(vars(ns).items()):
-            if not inspect.isclass(v) or v.__module__ != mod.__name__:
-                continue
-            if issubclass(v, enum.Enum):
-                key = mod.__name__.split('.')[-1] + '.' + v.__qualname__
-                if key not in enums:
-                    rows = []
-                    for name, member in v.__members__.items():          # includes aliases
-                        if name.startswith('_U'):
-                            continue                                    # dynamically added "unrecognized" members
-                        rows.append([name, int(member.value)])
-                    enums[key] = rows
-            elif depth < 3:
-                visit(v, depth + 1)
-    visit(mod, 0)
+        def visit(ns, depth):
+            for n, v in list(vars(ns).items()):
+                if not inspect.isclass(v) or v.__module__ != mod.__name__:
+                    continue
+                if issubclass(v, enum.Enum):
+                    key = mod.__name__.split('.')[-1] + '.' + v.__qualname__
+                    if key not in enums:
+                        rows = []
+                        for name, member in v.__members__.items():          # includes aliases
+                            if name.startswith('_U'):
+                                continue                                    # dynamically added "unrecognized" members
+                            rows.append([name, int(member.value)])
+                        enums[key] = rows
+                elif depth < 3:
+                    visit(v, depth + 1)
+        visit(mod, 0)
 
-MT = defs.MessageType
-classification = [[int(t), bool(defs.is_command(t)), bool(defs.is_response(t))] for t in MT.__members__.values()]
-
-
-def all_subclasses(c):
-    out = []
-    for s in c.__subclasses__():
-        out.append(s)
-        out += all_subclasses(s)
-    return out
+    MT = defs.MessageType
+    classification = [[int(t), bool(defs.is_command(t)), bool(defs.is_response(t))]
+                      for n, t in MT.__members__.items() if not n.startswith('_U')]
 
 
-classes = []
-for c in dict.fromkeys(all_subclasses(defs.MessagePayload)):
-    if 'MESSAGE_TYPE' not in vars(c) and not hasattr(c, 'MESSAGE_TYPE'):
-        notes.append('MessagePayload subclass %s has no MESSAGE_TYPE' % c.__qualname__)
-        continue
-    name = c.__module__.split('.')[-1] + '.' + c.__qualname__
-    classes.append([name, int(c.MESSAGE_TYPE), int(c.MESSAGE_VERSION), int(c.get_type()), int(c.get_version())])
-for row in classes:
-    if row[1] != row[3] or row[2] != row[4]:
-        raise SystemExit('get_type()/get_version() differ from MESSAGE_TYPE/MESSAGE_VERSION for %s' % row[0])
+    def all_subclasses(c):
+        out = []
+        for s in c.__subclasses__():
+            out.append(s)
+            out += all_subclasses(s)
+        return out
 
-registry = [[int(t), c.__module__.split('.')[-1] + '.' + c.__qualname__] for t, c in M.message_type_to_class.items()]
-if defs.MessagePayload.message_type_to_class is not M.message_type_to_class:
-    raise SystemExit('messages.message_type_to_class is not MessagePayload.message_type_to_class')
 
-os.write(OUT_FD, json.dumps({'c03': 1, 'enums': enums, 'classification': classification,
-                  'command_messages': sorted(int(t) for t in defs.COMMAND_MESSAGES),
-                  'response_messages': sorted(int(t) for t in defs.RESPONSE_MESSAGES),
-                  'classes': [r[:3] for r in classes], 'registry': registry, 'notes': notes}).encode() + b'\n')
+    classes = []
+    for c in dict.fromkeys(all_subclasses(defs.MessagePayload)):
+        if 'MESSAGE_TYPE' not in vars(c) and not hasattr(c, 'MESSAGE_TYPE'):
+            notes_local.append('MessagePayload subclass %s has no MESSAGE_TYPE' % c.__qualname__)
+            continue
+        name = c.__module__.split('.')[-1] + '.' + c.__qualname__
+        classes.append([name, int(c.MESSAGE_TYPE), int(c.MESSAGE_VERSION), int(c.get_type()), int(c.get_version())])
+    for row in classes:
+        if row[1] != row[3] or row[2] != row[4]:
+            raise SystemExit('get_type()/get_version() differ from MESSAGE_TYPE/MESSAGE_VERSION for %s' % row[0])
+
+    registry = [[int(t), c.__module__.split('.')[-1] + '.' + c.__qualname__] for t, c in M.message_type_to_class.items()]
+    if defs.MessagePayload.message_type_to_class is not M.message_type_to_class:
+        raise SystemExit('messages.message_type_to_class is not MessagePayload.message_type_to_class')
+
+    return {'enums': enums, 'classification': classification,
+            'command_messages': sorted(int(t) for t in defs.COMMAND_MESSAGES),
+            'response_messages': sorted(int(t) for t in defs.RESPONSE_MESSAGES),
+            'classes': [r[:3] for r in classes], 'registry': registry,
+            'by_name': sorted([n, int(t)] for n, t in M.message_type_by_name.items()),
+            'object_ids': {'COMMAND_MESSAGES': id(defs.COMMAND_MESSAGES), 'RESPONSE_MESSAGES': id(defs.RESPONSE_MESSAGES),
+                           'message_type_to_class': id(M.message_type_to_class), 'message_type_by_name': id(M.message_type_by_name)},
+            'notes': notes_local}
+
+
+at_import = snapshot()
+
+# ---- use the library in this same interpreter, then look again ------------------------------------------------
+import c03_exercise            # noqa: E402  (same directory)
+exercised = c03_exercise.exercise()
+after_use = snapshot()
+static_hits = c03_exercise.static_scan(os.path.dirname(fusion_engine_client.__file__))
+
+out = {'c03': 1}
+out.update(at_import)
+out.update({'notes': notes + at_import['notes'], 'after_use': after_use, 'exercised': exercised, 'static_hits': static_hits})
+os.write(OUT_FD, json.dumps(out).encode() + b'\n')
